@@ -20,6 +20,23 @@ its own, see D below) or its application aborts it (abortConnection of the
 request's channel).  Nothing is claimed for the removed stream; every other
 stream still owes its complete body, resumption and bounded liveness.
 
+The way a body is produced changes in mid-response (knob producer_changes): plain
+writes first and a producer registered after them, a producer unregistered
+(paused or not) and plain writes or another producer (push / pull) after it - so
+that a producer meets whatever earlier phases of the same stream left behind.
+Push producers that produce inside resumeProducing write one chunk or chunk after
+chunk until they are paused again.  The client may give the credit of every DATA
+frame back at once (knob auto_ack: WINDOW_UPDATE of the same size for the stream
+and / or the connection, besides the scripted WINDOW_UPDATEs), and in SYNC_LINK_P
+of the runs the link is a synchronous in-memory pipe (detsim.net.SyncLink): what
+either side writes reaches the other side's dataReceived from inside write(), so
+the client's WINDOW_UPDATE for a frame re-enters H2Connection.dataReceived while
+the send loop is still inside the transport.write() that carries the frame, and
+producers resumed by it write (or finish) before that write() returns.  In the
+final phase the client sends only the WINDOW_UPDATEs that are needed (knob
+lazy_open): a window larger than what is left, or open and refilled frame by
+frame, is not opened again.
+
 Oracles
  * referee: the h2 client raises (FlowControlError, FrameTooLargeError, ...) when
    the server overruns a window or otherwise breaks the protocol;
@@ -39,8 +56,9 @@ Oracles
  * bounded liveness: after the client finally opens every window with
    WINDOW_UPDATE frames, all streams complete within a step budget.
 
-Signatures seen on twisted 24.7.0.post0 (all reproduced outside the harness;
-docs/C29_candidate_fix.patch makes the check hold):
+Signatures seen on twisted 24.7.0.post0, the tree as first examined (all reproduced outside the harness;
+docs/C29_candidate_fix.patch made the check hold; A, B, C and E are genuine defects REPAIRED in /repo
+db3fcd2, 8b11fd5, 940589d, 9fde5a6; D is outside the statement):
  A  server-raised:send-loop:FlowControlError     negative window after SETTINGS lowered INITIAL_WINDOW_SIZE: frameData[:negative]
                                                  slices the wrong way, h2 refuses send_data, the send loop dies, bytes are lost
  B  no-resume:after-wu:parked:queued-data        _handleWindowUpdate unblocks the stream but never fires _sendingDeferred
@@ -53,7 +71,6 @@ docs/C29_candidate_fix.patch makes the check hold):
  E  server-raised:dataReceived:RuntimeError      connection-level WINDOW_UPDATE resumes a producer that finishes its request:
                                                  self.streams changes size while _handleWindowUpdate iterates over it
 """
-import os
 import struct
 import traceback
 
@@ -86,6 +103,8 @@ LEVEL = "exploration"
 TECHNIQUE = ("deterministic simulation: real H2Connection/H2Stream/Request against a tape-driven h2 client over a segmenting "
              "simulated link; window ledger recomputed from the frame log + h2 client as referee")
 QUICK_RUNS = 5600
+SYNC_LINK_P = 0.3     # share of the runs whose link is a synchronous in-memory pipe (detsim.net.SyncLink): write() hands the bytes to the peer at once
+FORCE_RESETS = None   # dev-time only (sensitivity runs on a patched copy): force the `resets` knob to "none" / "late" / "any"
 TWIN_P = 0.08   # this share of the runs drives two independent instances of the scenario one after the other (detsim.runner._run_scenario)
 BATCH = 40
 COMPONENTS = {
@@ -93,7 +112,9 @@ COMPONENTS = {
              "twisted.internet._producer_helpers._PullToPush", "twisted.internet.task.Cooperator (one work unit per tick, simulated clock)",
              "h2 4.4.1 / hpack / hyperframe (third-party, real): server state machine inside H2Connection and the client peer"],
     "stub": ["`priority` package: /verif/vendor/priority (API-compatible RFC 7540 5.3 dependency tree, weighted fair sharing among siblings, deterministic)",
-             "TCP transport, segmentation and sender-side back-pressure (detsim.net.Link / SimTransport)",
+             "TCP transport, segmentation and sender-side back-pressure (detsim.net.Link / SimTransport); in SYNC_LINK_P of the runs a synchronous "
+             "in-memory pipe instead (detsim.net.SyncLink: write() hands the bytes to the peer protocol at once, per-direction FIFO kept, a protocol "
+             "is never re-entered while it is inside dataReceived)",
              "reactor time (detsim.clock.SimClock passed as H2Connection(reactor=...))",
              "HTTP/2 client behaviour (tape-driven script on top of the real h2 client state machine; its per-stream inbound window "
              "manager is relaxed to accept a zero-length DATA frame on a negative window, which RFC 7540 6.9.1 allows and h2 rejects)",
@@ -113,7 +134,18 @@ RULE = ("run = 1..8 GET streams against one H2Connection (initial INITIAL_WINDOW
         "delivered first and the frame then reaches the server alone) or the application aborting its stream (knob, 30% of runs), both "
         "six times likelier while the server's transport has its producer paused, so that the send loop is parked behind the transport "
         "with a stream in hand; removed streams are exempt from every clause, all the others are not; "
-        "then every window is opened by WINDOW_UPDATE and the rest must drain within a round budget. Knobs drawn per run switch off, "
+        "knob producer_changes (50% of runs): a push / pull application makes 0..4 plain writes before it registers its producer, and a `change` "
+        "event unregisters the current producer of a stream (paused or not; up to 3 times per stream) and lets the rest be written plainly or by "
+        "a new push / pull producer registered after 0..3 plain writes; push producers that produce inside resumeProducing write one chunk or "
+        "(loop style) chunk after chunk until paused again; chunk size choices include the initial window itself; "
+        "knob auto_ack (off / both / stream / conn / mixed = tape-chosen per frame): the client answers every DATA frame it receives at once with "
+        "WINDOW_UPDATE frames of the frame's size (at most ACK_BUDGET frames before the final phase), and then sends WINDOW_UPDATE / SETTINGS of "
+        "its own four times less often when it refills both levels; knob sync_link (SYNC_LINK_P of the runs): detsim.net.SyncLink instead of "
+        "the network, whole or tape-cut pieces, mostly with an acknowledging client and more often with the `exact` family (writes as large "
+        "as the windows), so that the client's WINDOW_UPDATE re-enters the server from inside the transport.write() of the frame it answers and "
+        "resumed producers write / finish there; "
+        "then every window is opened by WINDOW_UPDATE (knob lazy_open, 50%: only where needed - not a window larger than what is left, nor an open "
+        "one that an acknowledging client refills frame by frame within 300 frames) and the rest must drain within a round budget. Knobs drawn per run switch off, "
         "in a fraction of runs, the preconditions of the defects found (SETTINGS lowering / raising the window, early or any RST_STREAM, "
         "producers that produce inside resumeProducing, the resumption oracle) so that every clause is also exercised on full-length runs. "
         "non-trivial = at least one stream was blocked on a zero/negative flow-control window while it had data queued AND the wire was cut at least once")
@@ -138,6 +170,14 @@ ASSUMPTIONS = [
     "the server may send exactly one RST_STREAM on such a stream and on no other",
     "a frame that the server sends on a stream after it has processed the peer's RST_STREAM for it (buffered HEADERS flushed late) gets no verdict: "
     "the statement is silent about it (counted in probe frame_after_rst_received)",
+    "an application may register a producer at any point of its response, unregister it at any time (also while it is paused) and go on with plain "
+    "writes or with another producer; a producer that is no longer registered ignores calls it still gets (no verdict; none seen on the unchanged tree)",
+    "a transport may hand written bytes to the peer from inside write() (in-memory pipe); the peer's answer then reaches H2Connection.dataReceived "
+    "while the server is inside transport.write(), but never while it is inside dataReceived itself (FIFO kept, rule of detsim.net.SyncLink); "
+    "the frame log orders what the server wrote before those bytes ahead of them; such a pipe has no buffer, hence applies no back-pressure",
+    "a client that has already granted more credit than the rest of a body needs (or keeps refilling both windows frame by frame) owes no further "
+    "WINDOW_UPDATE: with lazy_open the bounded-liveness clause is evaluated without one; a window that the rest of the body would use up exactly "
+    "is still opened, because a producer paused on a window that ran out exactly waits for the client",
     "server-raised: an exception escaping from H2Connection.dataReceived, from its send loop or from Request.write/finish is a violation, because on a "
     "real reactor it tears the connection down or kills the send loop, so no stream of the connection can complete",
 ]
@@ -208,7 +248,7 @@ class Ledger:
             if typ == T_HEADERS:
                 if sid not in self.st:
                     self.st[sid] = {"win": self.iws, "sent": 0, "ended": False, "rst_out": False, "rst_in": False,
-                                    "hdr": 0, "opener": "none"}
+                                    "hdr": 0, "opener": "none", "was_closed": False}
             elif typ == T_SETTINGS and not (flags & 1):
                 for i in range(0, len(p), 6):
                     ident, val = struct.unpack(">HI", p[i:i + 6])
@@ -275,6 +315,7 @@ class Ledger:
                               "stream %d ended after %d of %d bytes (finished=%s)" % (sid, s["sent"], app.pos, app.finished))
                 if app.pos > s["sent"] and self.eff(s) <= 0:
                     self.blocked_with_data = True
+                    s["was_closed"] = True
             elif typ == T_HEADERS:
                 s = self.st.get(sid)
                 sim.check("data-on-unknown-stream", s is not None, "HEADERS", "stream %d" % sid)
@@ -311,7 +352,7 @@ class App:
         self.pos = 0
         self.mode = "direct"
         self.maxchunk = 1
-        self.eager = False
+        self.eager = 0            # push producer: produces inside resumeProducing (1: one chunk, 2: until paused again)
         self.sync = 0
         self.request = None
         self.registered = False
@@ -325,6 +366,10 @@ class App:
         self.producer = None
         self.style = "plain"      # entry points of the response channel the application uses for its body (see emit)
         self.started = False      # the response has been started (headers handed to the channel)
+        self.late = 0             # plain writes the application still makes before it registers its producer
+        self.nproducers = 0       # producers registered so far
+        self.busy = 0             # the application is inside one of its own write calls
+        self.nchanges = 0         # changes of the way the body is produced (change_producer)
 
     def removed(self):
         """The stream was taken away (peer's RST_STREAM / aborted by the application): nothing is owed for it."""
@@ -346,6 +391,13 @@ class App:
         return None
 
     def write_chunk(self, big=False):
+        self.busy += 1
+        try:
+            return self._write_chunk(big)
+        finally:
+            self.busy -= 1
+
+    def _write_chunk(self, big=False):
         h = self.h
         sim = h.sim
         left = len(self.body) - self.pos
@@ -361,10 +413,14 @@ class App:
             return True
         n = min(left, self.maxchunk)
         if n > 1 and not big and not sim.draw_bool(0.5, "partial"):
-            n = sim.draw_int(1, n, "chunk")
+            # part of a chunk; of a large one not less than an eighth (keeps the number of writes of a big body - and of an
+            # exhausted replay tape, which draws the minimum every time - small)
+            n = sim.draw_int(1 if n < 2000 else n // 8, n, "chunk")
         data = self.body[self.pos:self.pos + n]
         self.pos += n
         self.nwrites += 1
+        if h.in_nested_delivery:
+            sim.probe("application_wrote_while_server_was_inside_transport_write")
         if how == "write":
             sim.event("app-write", self.k, n)
             self.started = True
@@ -429,6 +485,8 @@ class App:
         h = self.h
         self.finished = True
         h.sim.event("app-finish", self.k)
+        if h.in_nested_delivery:
+            h.sim.probe("application_finished_while_server_was_inside_transport_write")
         with h.sim.guard("server-raised", "app"):
             if self.registered:
                 self.request.unregisterProducer()
@@ -449,14 +507,49 @@ class App:
         """One application step (harness-initiated)."""
         h = self.h
         if self.mode in ("push", "pull") and not self.registered:
+            if self.late > 0 and self.pos < len(self.body):
+                # the part of the body that goes out before the producer exists: plain writes, nobody to pause
+                self.late -= 1
+                h.sim.probe("plain_write_before_producer")
+                self.write_chunk(big)
+                return
             self.registered = True
+            self.paused = False
+            self.nproducers += 1
             self.producer = PushProducer(self) if self.mode == "push" else PullProducer(self)
             h.sim.event("app-register", self.k, self.mode)
+            led = h.ledger.st.get(self.sid)
+            if self.pos > 0:
+                h.sim.probe("producer_registered_after_plain_writes")
+                if led is not None and led["was_closed"] and self.pos == led["sent"] and h.ledger.eff(led) > 0:
+                    # everything written so far has left, the windows had been used up on the way and are open again
+                    h.sim.probe("producer_registered_after_window_reopened")
+            if self.nproducers > 1:
+                h.sim.probe("second_producer_registered")
             with h.sim.guard("server-raised", "app"):
                 self.request.registerProducer(self.producer, self.mode == "push")
             return
         if not self.write_chunk(big):
             self.finish()
+
+    def change_producer(self):
+        """The application changes how it produces the rest of the body: the current producer (if any; paused or not) is
+        unregistered, and the rest is written plainly or by a new producer registered after 0..3 plain writes."""
+        h = self.h
+        sim = h.sim
+        if self.registered:
+            sim.event("app-unregister", self.k, self.mode, int(self.paused))
+            sim.fault("producer_unregistered_in_mid_response")
+            if self.paused:
+                sim.fault("paused_producer_unregistered")
+            self.registered = False
+            self.paused = False
+            self.producer = None
+            with sim.guard("server-raised", "app"):
+                self.request.unregisterProducer()
+        self.mode = sim.draw_choice(["push", "direct", "pull"], "new-mode")
+        self.late = sim.draw_choice([0, 1, 3], "new-late")
+        sim.event("app-mode", self.k, self.mode, self.late)
 
 
 @implementer(interfaces.IPushProducer)
@@ -465,22 +558,32 @@ class PushProducer:
         self.app = app
 
     def pauseProducing(self):
+        if self.app.producer is not self:
+            return      # a producer that is no longer registered ignores what it is told (no verdict: the statement is silent)
         self.app.paused = True
         self.app.h.sim.event("producer-paused", self.app.k)
         self.app.h.sim.probe("producer_paused")
 
     def resumeProducing(self):
         app = self.app
+        if app.producer is not self:
+            return
         app.paused = False
         app.h.sim.event("producer-resumed", app.k)
         app.h.sim.probe("producer_resumed")
-        if app.eager and not app.dead and not app.finished:
-            # a producer that produces synchronously when told to resume
-            if not app.write_chunk():
-                app.finish()
+        if app.eager and not app.dead and not app.finished and not app.busy:
+            # a producer that produces synchronously when told to resume: one chunk, or (eager 2) chunk after chunk until it
+            # is paused again or has finished, as producers that run a write loop do (not from inside a write call of its own:
+            # "what the application wrote" would have no defined order)
+            for _ in range(40 if app.eager == 2 else 1):
+                if app.paused or app.dead or app.finished or app.producer is not self:
+                    break
+                if not app.write_chunk():
+                    app.finish()
 
     def stopProducing(self):
-        self.app.dead = True
+        if self.app.producer is self:
+            self.app.dead = True
 
 
 @implementer(interfaces.IPullProducer)
@@ -490,6 +593,8 @@ class PullProducer:
 
     def resumeProducing(self):
         app = self.app
+        if app.producer is not self:
+            return
         if app.dead or app.finished:
             return
         app.h.sim.probe("pull_produce")
@@ -497,7 +602,8 @@ class PullProducer:
             app.finish()
 
     def stopProducing(self):
-        self.app.dead = True
+        if self.app.producer is self:
+            self.app.dead = True
 
 
 class SimRequest(http.Request):
@@ -520,6 +626,7 @@ class Peer:
         self.cl = {}   # sid -> dict(data, ended, hdr, reset)
         self.pending_settings = 0
         self.rbuf = bytearray()
+        self.acks_left = ACK_BUDGET     # auto_ack: DATA frames still to be answered before the final phase
 
     def makeConnection(self, t):
         self.transport = t
@@ -570,6 +677,7 @@ class Peer:
                 c["data"] += ev.data
                 sim.check("body-order", bytes(c["data"][off:]) == app.body[off:off + len(ev.data)] and len(c["data"]) <= app.pos, "client",
                           lambda: "stream %d: bytes at offset %d differ from what was written" % (ev.stream_id, off))
+                self.acknowledge(ev, app, c)
             elif isinstance(ev, h2.events.StreamEnded):
                 c = self.cl[ev.stream_id]
                 sim.event("C<", "end", ev.stream_id, len(c["data"]))
@@ -586,6 +694,38 @@ class Peer:
         self.flush()
 
 
+def _acknowledge(self, ev, app, c):
+    """Knob auto_ack: the client gives back the credit a DATA frame used as soon as it has the frame (what a client that
+    consumes the body at once does): WINDOW_UPDATE of the same size for the stream (while it is open) and / or the connection."""
+    sim = self.h.sim
+    mode = self.h.cfg["auto_ack"]
+    n = ev.flow_controlled_length
+    if mode == "off" or not n:
+        return
+    if self.acks_left <= 0:
+        sim.probe("auto_ack_budget_used_up")       # keeps runs short (tiny windows refilled frame by frame): a harness budget
+        return
+    how = mode if mode != "mixed" else sim.draw_choice(["both", "none", "stream", "conn"], "ack")
+    if how == "none":
+        return
+    self.acks_left -= 1
+    stream_open = ev.stream_ended is None and not app.client_reset and not c["srv_reset"]
+    sim.event("C>", "ack", ev.stream_id, n, how, int(stream_open))
+    sim.probe("auto_ack")
+    if self.h.in_server:
+        sim.probe("auto_ack_while_server_is_inside_a_call")
+    if how in ("both", "stream") and stream_open:
+        try:
+            self.conn.increment_flow_control_window(n, ev.stream_id)
+        except (h2.exceptions.StreamClosedError, h2.exceptions.NoSuchStreamError, KeyError):
+            pass        # END_STREAM came in a later frame of the same segment: nothing to give back on the stream
+    if how in ("both", "conn"):
+        self.conn.increment_flow_control_window(n)
+
+
+Peer.acknowledge = _acknowledge
+
+
 def _lenient(wm):
     """RFC 7540 6.9.1 lets an empty DATA frame (END_STREAM) be sent when no window is available, also when a
     SETTINGS change made the window negative; h2's receive path raises FlowControlError for a zero-length frame
@@ -600,6 +740,20 @@ def _lenient(wm):
     wm.window_consumed = window_consumed
 
 
+class _Inside:
+    """Marks the extent of a harness-initiated call into the server side (clock call, application step)."""
+
+    def __init__(self, h):
+        self.h = h
+
+    def __enter__(self):
+        self.h.in_server += 1
+
+    def __exit__(self, *exc):
+        self.h.in_server -= 1
+        return False
+
+
 class ServerTap:
     """Sits between the link and the real H2Connection so that the frame log
     records inbound frames before the server's reaction to them."""
@@ -612,9 +766,21 @@ class ServerTap:
 
     def dataReceived(self, data):
         h = self.h
+        # whatever the server wrote before these bytes reached it comes first in the frame log (on a synchronous link the
+        # client's answer to a frame arrives from inside the write() that carries the frame)
+        h.ledger.feed_out(h.link.a.written)
+        nested = h.in_server > 0
+        if nested:
+            h.sim.probe("server_reentered_from_its_own_write")
         h.ledger.feed_in(data)
-        with h.sim.guard("server-raised", "dataReceived"):
-            h.server.dataReceived(data)
+        h.in_server += 1
+        h.in_nested_delivery += nested
+        try:
+            with h.sim.guard("server-raised", "dataReceived"):
+                h.server.dataReceived(data)
+        finally:
+            h.in_server -= 1
+            h.in_nested_delivery -= nested
         h.after()
 
     def connectionLost(self, reason):
@@ -624,6 +790,7 @@ class ServerTap:
 
 # ------------------------------------------------------------------ the run
 
+ACK_BUDGET = 300
 IWS_CHOICES = [65535, 0, 1, 2, 5, 17, 100, 1000, 16384, 100000, 300000]
 MFS_CHOICES = [16384, 16385, 20000, 32768, 65536, 1000000]
 INC_CHOICES = [1, 2, 10, 100, 1000, 16384, 65535, 200000]
@@ -637,6 +804,8 @@ class Harness:
         self.apps = []
         self.app_by_sid = {}
         self.prio_used = False
+        self.in_nested_delivery = 0   # inside a dataReceived of the server that was called from inside a write() of the server
+        self.in_server = 0        # depth of calls into the server (dataReceived, clock calls, application calls) the harness is inside
 
     # --- construction
     def build(self):
@@ -648,7 +817,7 @@ class Harness:
         cfg = {"nstreams": n, "init_iws": init_iws, "hwm": hwm, "family": family,
                "settings_shrink": sim.draw_bool(0.7, "settings_shrink"),   # SETTINGS may lower INITIAL_WINDOW_SIZE (windows can go negative)
                "settings_open": sim.draw_bool(0.7, "settings_open"),   # SETTINGS may raise INITIAL_WINDOW_SIZE
-               "eager": sim.draw_bool(0.5, "eager"),                   # push producers write synchronously inside resumeProducing
+               "eager": sim.draw_bool(0.6, "eager"),                   # push producers write synchronously inside resumeProducing
                # streams that go away while the others are in flight.  RST_STREAM from the client: never / only after the
                # response headers arrived / at any time.  The statement quantifies over WINDOW_UPDATE and SETTINGS, so nothing
                # is claimed about the removed stream itself; the OTHER streams still owe everything.  A reset that shares a
@@ -661,9 +830,29 @@ class Harness:
                # applications may hand their body to the channel through its other ITransport entry points (writeSequence of
                # lists / tuples / iterators of 0..4 pieces, empty pieces) and may write no data at all (empty sequence, b"")
                "entry_points": sim.draw_bool(0.5, "entry_points"),
-               "nops": sim.draw_int(10, 160, "nops")}
-        if os.environ.get("VERIF_C29_RESETS"):      # dev-time only (sensitivity runs on a patched copy): force the knob
-            cfg["resets"] = os.environ["VERIF_C29_RESETS"]
+               "nops": sim.draw_int(10, 160, "nops"),
+               # the application changes how it produces its body in mid-response: plain writes first and a producer later,
+               # a producer unregistered (paused or not) and plain writes or another producer (push / pull) after it
+               "producer_changes": sim.draw_bool(0.5, "producer_changes"),
+               # the client answers the DATA it receives with WINDOW_UPDATE frames of the same size at once (stream and
+               # connection / one of them / tape-chosen per frame), besides the WINDOW_UPDATEs the script sends on its own
+               "auto_ack": sim.draw_choice(["off", "both", "off", "mixed", "stream", "conn"], "auto_ack"),
+               # in-memory pipe instead of a network: what either side writes reaches the other side's dataReceived from inside
+               # write(), so the client's reaction to a DATA frame re-enters the server while it is still sending that frame
+               # (a peer on such a pipe that never reacts to what it gets adds little: it mostly does react)
+               "sync_link": sim.draw_bool(SYNC_LINK_P, "sync_link"),
+               # final phase: the client sends only the WINDOW_UPDATEs that are still needed (a window that already covers what
+               # is left, or that the client refills frame by frame, is not opened again)
+               "lazy_open": sim.draw_bool(0.5, "lazy_open")}
+        if FORCE_RESETS is not None:
+            cfg["resets"] = FORCE_RESETS
+        if cfg["sync_link"]:
+            if cfg["auto_ack"] == "off" and sim.draw_bool(0.8, "sync-reacts"):
+                cfg["auto_ack"] = sim.draw_choice(["mixed", "both", "stream"], "sync-ack")
+            # nothing ever waits in an instantaneous pipe, so windows only run out (and producers only get paused) when
+            # writes are as large as the windows: that family more often
+            if sim.draw_bool(0.4, "sync-exact"):
+                family = cfg["family"] = "exact"
         self.cfg = cfg
         sim.config = cfg
         self.cur_iws = init_iws       # value of the client's last INITIAL_WINDOW_SIZE sent
@@ -678,7 +867,7 @@ class Harness:
             elif family == "exact":
                 # bodies that exhaust the stream (or, for the first sender, the connection) window exactly
                 base = min(w, 65535)
-                L = sim.draw_choice([base, base, base + 1, base - 1, 0, 2 * base], "len")
+                L = sim.draw_choice([base, base, base + 1, base - 1, 0, 2 * base, 3 * base if base <= 20000 else 2 * base], "len")
             elif family == "small":
                 L = sim.draw_int(0, 300, "len")
             elif family == "medium":
@@ -691,19 +880,26 @@ class Harness:
             assert off < len(_BASE)
             app.body = _BASE[start:start + L]
             app.mode = sim.draw_choice(["direct", "push", "pull", "direct"] if family != "exact" else ["push", "direct", "push", "pull"], "mode")
-            mc = sim.draw_choice([1 << 30, 1, 7, 100, 1000, 16384, 20000], "maxchunk")
+            if family == "exact":
+                mc = sim.draw_choice([1 << 30, "window", 1000, "window", 1 << 30, 7, 16384], "maxchunk")
+            else:
+                mc = sim.draw_choice([1 << 30, 1, 7, 100, 1000, 16384, 20000, "window"], "maxchunk")
+            if mc == "window":
+                mc = max(1, init_iws)      # an application whose writes are as large as the window the client started with
             if L > 3000 and mc < 100:
                 mc = 1000      # keep runs short
             if L > 30000 and mc < 16384:
                 mc = 16384
             app.maxchunk = mc
-            app.eager = cfg["eager"] and sim.draw_bool(0.7, "eager1")
+            app.eager = (1 + int(sim.draw_bool(0.5, "eager-loop"))) if cfg["eager"] and sim.draw_bool(0.8, "eager1") else 0
             app.sync = sim.draw_choice([0, 1, 2, 9], "sync")   # chunks written synchronously inside process(); 9 = everything + finish
             # entry points used for the body: Request.write only, or a mix of Request.write, channel.writeSequence and writes of no data
             app.style = sim.draw_choice(["plain", "mixed"], "style") if cfg["entry_points"] else "plain"
+            # plain writes that precede the registration of the producer
+            app.late = sim.draw_choice([0, 0, 1, 2, 4], "late") if cfg["producer_changes"] and app.mode != "direct" else 0
             self.apps.append(app)
             self.app_by_sid[app.sid] = app
-            cfg.setdefault("streams", []).append([L, app.mode, mc if mc < (1 << 30) else "all", int(app.eager), app.sync, app.style])
+            cfg.setdefault("streams", []).append([L, app.mode, mc if mc < (1 << 30) else "all", int(app.eager), app.sync, app.style, app.late])
 
         # deterministic stand-in for the global cooperator (its default slice is 10 ms of wall clock)
         self._old_coop = task._theCooperator
@@ -738,10 +934,22 @@ class Harness:
         self.peer = Peer(self)
         self.ledger = Ledger(self)
         self.tap = ServerTap(self)
-        self.link = net.Link(sim, self.tap, self.peer, hwm_a=hwm)
+        self.sync = bool(cfg["sync_link"])
+        if self.sync:
+            # an in-memory pipe: whatever one side writes is handed to the other side's dataReceived from inside write(), FIFO per
+            # direction (bytes for a protocol that is busy with a delivery wait until that call has returned); no buffer between
+            # the two sides, hence no back-pressure (hwm unused).  Corked while both ends are being attached.
+            sim.fault("synchronous_link")
+            self.link = net.SyncLink(sim, self.tap, self.peer, pieces=sim.draw_choice(["whole", "mixed"], "pieces"),
+                                     amounts=tuple(reversed(AMOUNTS)), reenter=False)
+            self.link.held = True
+        else:
+            self.link = net.Link(sim, self.tap, self.peer, hwm_a=hwm)
         self.link.connect()
         # as twisted.web.http._GenericHTTPChannelProtocol does after switching to h2
         self.link.a.registerProducer(self.server, True)
+        if self.sync:
+            self.link.release()
         if init_iws != 65535:
             self.peer.conn.update_settings({h2.settings.SettingCodes.INITIAL_WINDOW_SIZE: init_iws})
             self.peer.pending_settings += 1
@@ -808,7 +1016,7 @@ class Harness:
         nt = clock.next_time()
         if nt > clock.now:
             clock.now = nt
-        with self.sim.guard("server-raised", "clock-call"):
+        with _Inside(self), self.sim.guard("server-raised", "clock-call"):
             clock.run_next()
         self.after()
         return True
@@ -911,7 +1119,8 @@ class Harness:
     def abort(self, app):
         self.sim.fault("app_abort")
         self.removal_probes("app_abort")
-        app.abort()
+        with _Inside(self):
+            app.abort()
         self.after()
 
     def prioritize(self):
@@ -1036,20 +1245,39 @@ class Harness:
         sim = self.sim
         led = self.ledger
         self.settle(check=True)
-        # open every window by WINDOW_UPDATE (connection first), by exactly what is missing plus slack
+        # open every window by WINDOW_UPDATE (connection first), by exactly what is missing plus slack.  Knob lazy_open: a
+        # window that is larger than what is left (it cannot run out any more) is not opened again, nor is one that is open and that the client refills
+        # frame by frame (auto_ack "both"), as long as that does not take too many frames - the client has no reason to send
+        # a further WINDOW_UPDATE, and the statement promises the rest of the body without one.
+        lazy = self.cfg["lazy_open"]
+        refill = self.cfg["auto_ack"] == "both"
+        self.peer.acks_left = 1 << 30       # from here on an acknowledging client answers every frame (bounded by the 300-frame rule below)
+        extra_frames = 0
         remaining = 0
         for app in self.apps:
             if app.requested and not app.removed():
                 s = led.st.get(app.sid)
                 sent = s["sent"] if s else 0
                 remaining += len(app.body) - sent
-        self.wu_conn(max(1, remaining + 1000 - led.conn_win))
+        if lazy and led.conn_win > remaining:
+            sim.probe("final_opening_not_needed_connection")
+        elif lazy and refill and led.conn_win > 0 and remaining // min(led.conn_win, 16384) <= 300:
+            sim.probe("final_opening_left_to_refills_connection")
+            extra_frames += remaining // min(led.conn_win, 16384) + 1
+        else:
+            self.wu_conn(max(1, remaining + 1000 - led.conn_win))
         for app in self.client_open():
             s = led.st.get(app.sid)
             win = s["win"] if s else self.cur_iws
             sent = s["sent"] if s else 0
-            need = len(app.body) - sent + 10
-            self.wu_stream(app, max(1, need - win))
+            left = len(app.body) - sent
+            if lazy and win > left:      # strictly: a window used up exactly pauses the producer, and the client then has to open it
+                sim.probe("final_opening_not_needed_stream")
+            elif lazy and refill and win > 0 and left // min(win, 16384) <= 300:
+                sim.probe("final_opening_left_to_refills_stream")
+                extra_frames += left // min(win, 16384) + 1
+            else:
+                self.wu_stream(app, max(1, left + 10 - win))
         sim.event("drain")
         frames = 0
         for app in self.apps:
@@ -1057,14 +1285,14 @@ class Harness:
                 left = len(app.body) - app.pos
                 per_write = 1 if app.style == "plain" else 4      # writeSequence: one DATA frame per piece
                 frames += app.nwrites + per_write * ((left + app.maxchunk - 1) // max(1, app.maxchunk)) + len(app.body) // 16384 + 4
-        budget = 200 + 8 * frames
+        budget = 200 + 8 * (frames + extra_frames)
         rounds = 0
         while not self.all_done():
             rounds += 1
             if rounds > budget:
                 stuck = [a.sid for a in self.apps if a.requested and not a.removed() and not self.peer.cl[a.sid]["ended"]]
                 sim.check("liveness", False, "send-loop-" + self.loop_state(),
-                          "after all windows were opened by WINDOW_UPDATE, streams %r did not complete within %d rounds "
+                          "after every window was open (WINDOW_UPDATE sent wherever one was needed), streams %r did not complete within %d rounds "
                           "(conn window %d; %s)" % (stuck, budget, led.conn_win,
                                                     ["%d:w%d/sent%d/written%d" % (x, led.st[x]["win"], led.st[x]["sent"], self.app_by_sid[x].pos)
                                                      for x in stuck if x in led.st]))
@@ -1077,10 +1305,11 @@ class Harness:
                 with sim.guard("server-raised", "transport-resume"):
                     self.link.do(ev[0][0], ev[0][1], None)
                 self.after()
-            for app in self.apps:
-                for _ in range(4):
-                    if app.can_act():
-                        app.act(big=True)
+            with _Inside(self):
+                for app in self.apps:
+                    for _ in range(4):
+                        if app.can_act():
+                            app.act(big=True)
             self.after()
             self.tick(0.001)
             for _ in range(3):
@@ -1116,23 +1345,29 @@ class Harness:
             rst_cands = []
             if cfg["resets"] != "none":
                 rst_cands = [a for a in open_ if cfg["resets"] == "any" or self.peer.cl[a.sid]["hdr"]]
+            change_cands = []
+            if cfg["producer_changes"]:
+                change_cands = [a for a in self.apps if a.request is not None and not a.dead and not a.finished and a.nchanges < 3]
             abort_cands = []
             if cfg["aborts"]:
                 abort_cands = [a for a in self.apps if a.request is not None and not a.dead and not a.finished]
             # a stream that goes away matters most while the others are held up behind the transport
             held = 6 if self.link.a.producer_paused else 1
+            # a client that gives every frame's credit back at once has little reason for WINDOW_UPDATEs of its own
+            spont = 4 if cfg["auto_ack"] != "both" else 1
             ops = [("net", 100 if self.link.enabled() else 0),
                    ("tick", 80 if self.clock.pending() else 0),
                    ("app", 70 if actors else 0),
                    ("req", 40 if nxt is not None else 0),
-                   ("wu-stream", 20 if open_ else 0),
-                   ("wu-conn", 15),
+                   ("wu-stream", 5 * spont if open_ else 0),
+                   ("wu-conn", 4 * spont),
                    # h2 (client) cannot attribute SETTINGS ACKs when two SETTINGS frames are in flight: one at a time
-                   ("settings", 12 if self.peer.pending_settings == 0 else 0),
-                   ("settle", 10),
+                   ("settings", 3 * spont if self.peer.pending_settings == 0 else 0),
+                   ("settle", 20 if self.sync else 10),
                    ("rst", 4 * held if rst_cands else 0),
                    ("prio", 6 if cfg["prio"] else 0),
-                   ("abort", 3 * held if abort_cands else 0)]
+                   ("abort", 3 * held if abort_cands else 0),
+                   ("change", 8 if change_cands else 0)]
             op = sim.draw_weighted(ops, "op")
             if op == "net":
                 self.net_step()
@@ -1140,9 +1375,10 @@ class Harness:
                 self.tick(sim.draw_choice([0.0, 0.0, 0.001, 0.05], "dt"))
             elif op == "app":
                 app = sim.draw_choice(actors, "actor")
-                for _ in range(sim.draw_choice([1, 1, 2, 5], "burst")):
-                    if app.can_act():
-                        app.act()
+                with _Inside(self):
+                    for _ in range(sim.draw_choice([1, 1, 2, 5], "burst")):
+                        if app.can_act():
+                            app.act()
                 self.after()
             elif op == "req":
                 self.send_request(nxt)
@@ -1161,6 +1397,12 @@ class Harness:
                 self.prioritize()
             elif op == "abort":
                 self.abort(sim.draw_choice(abort_cands, "stream"))
+            elif op == "change":
+                app = sim.draw_choice(change_cands, "stream")
+                app.nchanges += 1
+                with _Inside(self):
+                    app.change_producer()
+                self.after()
             sim.state((op, min(len(open_), 3), min(len(actors), 3), self.ledger.conn_win <= 0,
                        sum(1 for s in self.ledger.st.values() if s["win"] <= 0 and not s["ended"]) > 0,
                        self.link.a.producer_paused))
@@ -1194,8 +1436,9 @@ def cleanup(sim):
 
 
 MUTANTS = [
-    # all run with tools/mutate.py on a scratch copy that already carries docs/C29_candidate_fix.patch (the unchanged tree violates the
-    # property, see the report), quick tier, exit code 1 = caught
+    # all run with tools/mutate.py on a scratch copy that already carried docs/C29_candidate_fix.patch (the tree as first examined violated
+    # the property; those defects have since been REPAIRED in /repo db3fcd2, 9fde5a6, 8b11fd5, 940589d - listed as fixed in
+    # known_findings.json), quick tier, exit code 1 = caught
     "M1 _handleWindowUpdate: stream branch no longer unblocks the stream in the priority tree -> caught (no-resume:after-wu:*:queued-data; "
     "on the unfixed tree it also shows as no-resume:after-wu:running:queued-data, distinct from the listed defect's ...:parked:...)",
     "M2 _sendPrioritisedData: maxFrameSize ignores max_outbound_frame_size -> caught (server-raised:send-loop:FrameTooLargeError)",
@@ -1221,6 +1464,16 @@ MUTANTS = [
     "M27 H2Stream.writeSequence stops at the first empty piece -> caught (body-complete / body-order, frame log)",
     "M26 writeDataToStream: empty data returns early without queueing, before the flow-control bookkeeping -> survives, as it should "
     "(nothing is owed for a write of no data)",
+    "M28 _sendPrioritisedData decides 'was that the last chunk of the stream' before transport.write() and blocks the stream after it (seeded change "
+    "r6a) -> caught once the link can be a synchronous pipe with a client that answers DATA at once (no-resume:after-wu:parked:queued-data / "
+    "...:end-stream-pending, liveness with lazy_open); survived before (deliveries never nested in write(), WINDOW_UPDATE only at scripted moments)",
+    "M29 H2Stream remembers 'window exhausted' from flowControlBlocked() and pauses a producer registered later, the flag being cleared only where a "
+    "producer is resumed (seeded change r6b) -> caught once producers can be registered after plain writes / after another producer "
+    "(no-resume:*:paused-producer, liveness:send-loop-parked with lazy_open); survived before (producers were registered before the first write, once)",
+    "M30 H2Stream.registerProducer leaves _producerProducing False (the producer is never paused by flow control and may be told to resume while "
+    "it is producing) -> survives, as it should: back-pressure towards the application is outside the statement",
+    "M31 H2Stream.unregisterProducer keeps self.producer -> caught (server-raised:app:ValueError on the next registration, "
+    "server-raised:send-loop:TaskStopped); needs the producer_changes family",
     "M19 _tryToWriteControlData: always writes directly (ignores transport back-pressure for control frames) -> survived; back-pressure towards the "
     "transport is outside the statement",
 ]
